@@ -239,7 +239,7 @@ func runC18(c *fw.Ctx) {
 	depth := c.Pick(4, 5)
 	c.Bound("depth", depth)
 	c.Bound("ops", c18Ops)
-	c.SetRule("all well-formed histories up to depth over two loose-object writers, two pack writers, SetEncodedObject and cache-filling lookups (Has(absent), Iter, ObjectPacks, Prefix) on a fresh real filesystem storage per history (no state merging: every history is replayed), x {ExclusiveAccess} x {UseInMemoryIdx}; after every history all lookup flavours (has, size, get any/typed with content, type iteration, prefix search) for every object must agree with the set of objects whose write has returned successfully; objects with an open writer are unconstrained; distinct = distinct (configuration, observation) pairs")
+	c.SetRule("all well-formed histories up to depth over two loose-object writers, two pack writers, SetEncodedObject and cache-filling lookups (Has(absent), Iter, ObjectPacks, Prefix) on a fresh real filesystem storage per history (no state merging: every history is replayed), x {ExclusiveAccess} x {UseInMemoryIdx}; after every history all lookup flavours (has, size, get any/typed with content, type iteration, prefix search) for every object must agree with the set of objects whose write has returned successfully; objects with an open writer are unconstrained; plus, under the controlled scheduler, a PackfileWriter write+close on the instance interleaved at every synchronisation/filesystem point with other threads' first lookups (preemption bound 1/2): the object must be visible to every lookup starting after the write returned; distinct = distinct (configuration, observation) pairs")
 	c.Assume("filesystem = mcfs; single instance, sequential calls")
 	u := c18Universe()
 	base := mcfs.NewWorld()
@@ -303,7 +303,10 @@ func runC18(c *fw.Ctx) {
 	}
 	c.States(total.States)
 	c.Transitions(total.Transitions)
-	c.TracesValidated(0)
+	// interleaved variant: a pack write on the instance racing with the instance's first index load
+	// (every schedule within the preemption bound, see C23's engine); the written object must be
+	// visible to every lookup that starts after the write returned
+	c23Run(c, "pack(same instance)")
 }
 
 // c18Shape: which lookup flavours disagree, for which kind of object, after which kind of op
